@@ -105,6 +105,8 @@ func (vc *VC) loopHead(st *State, fr *Frame, h, pred *ssa.BasicBlock, back bool,
 		}
 		if keys, all := vc.loopModKeys(fr.fn, h); !all {
 			vc.loopFrame(st, fr, n, keys, "step")
+		} else if fr.top {
+			vc.preservesObligations(st, fmt.Sprintf("preserves.loop%d.step", n))
 		}
 		if st.ctx.blk.Kind == "opcase" && fr.top && n == 1 {
 			vc.opcaseEnd(st, fr, nil)
@@ -136,7 +138,13 @@ func (vc *VC) loopHead(st *State, fr *Frame, h, pred *ssa.BasicBlock, back bool,
 		}
 	}
 	if all {
+		if fr.top {
+			vc.preservesObligations(st, fmt.Sprintf("preserves.loop%d.entry", n))
+		}
 		vc.havocAll(st)
+		if fr.top {
+			vc.preservesObligations(st, fmt.Sprintf("preserves.loop%d.assume", n))
+		}
 	} else {
 		for _, k := range keys {
 			if vc.heapImm[k] {
@@ -979,6 +987,43 @@ func (vc *VC) frameGoal(st *State, k string, tg []modTarget) string {
 	return fmt.Sprintf("(forall ((a!f Int)) (! (=> (and (<= (root a!f) mark0) (not %s)) (= (select %s a!f) (select %s a!f))) :pattern ((select %s a!f))))", or(regs...), cur, ent, cur)
 }
 
+// preservesObligations: `modifies all` + `preserves X`: whatever else the
+// function does, X has the value it had at entry (objects that existed at
+// entry).  kind "preserves" = at return; "preserves.loopN.entry/step" = the
+// same statement as an automatic loop invariant; mode assume = after the havoc
+// at a loop head.
+func (vc *VC) preservesObligations(st *State, kind string) {
+	blk := vc.blk
+	if len(blk.Preserves) == 0 || vc.entry == nil || st.ctx == nil || st.ctx.blk != blk {
+		return
+	}
+	tmp := &Block{Modifies: blk.Preserves, File: blk.File, Line: blk.Line}
+	tg, err := vc.modTargets(tmp, vc.fn.Pkg.Pkg, vc.baseEnv(st.ctx), vc.entry)
+	if err != nil {
+		vc.fail(err)
+		return
+	}
+	for i, t := range tg {
+		if t.all {
+			continue
+		}
+		if _, ok := vc.heapSort[t.key]; !ok {
+			continue
+		}
+		cur := vc.heapName(st, t.key, vc.heapSort[t.key])
+		ent := vc.heapName(vc.entry, t.key, vc.heapSort[t.key])
+		if cur == ent {
+			continue
+		}
+		goal := fmt.Sprintf("(forall ((a!f Int)) (! (=> (and (<= (root a!f) mark0) %s) (= (select %s a!f) (select %s a!f))) :pattern ((select %s a!f))))", t.region("a!f"), cur, ent, cur)
+		if strings.HasSuffix(kind, ".assume") {
+			vc.assume(st, goal)
+		} else {
+			vc.oblige(st, kind, fmt.Sprintf("%s#%d", t.key, i), goal, nil, "")
+		}
+	}
+}
+
 // loopFrame: the function's frame (modifies clause) as an automatic loop
 // invariant for the heap arrays the loop may write: asserted on the entry
 // edge and on every back edge, assumed after the havoc at the loop head.
@@ -1028,6 +1073,7 @@ func (vc *VC) frameObligations(st *State) {
 	}
 	for _, t := range tg {
 		if t.all {
+			vc.preservesObligations(st, "preserves")
 			return
 		}
 	}
